@@ -394,6 +394,9 @@ func runC11(t *testing.T, c c11Case, st *drv.Stats) (fail *drv.Failure) {
 		err := sc.Run(tasks.Done)
 		virtual = w.now()
 		st.AddSteps(sc.Steps)
+		for cl, n := range sc.ByClass {
+			st.ProbeN("yield_"+cl.String(), n)
+		}
 		for k, v := range w.fired {
 			st.FaultN(k, v)
 		}
